@@ -8,7 +8,6 @@ import (
 
 const (
 	idOrSubMatchLen = 2
-	endRPCSplitLen  = 2
 )
 
 func getID(match [][]byte) int {
@@ -53,56 +52,49 @@ func (d *Driver) read() {
 
 		b = append(b, rb...)
 
-		// loop rather than check once: what is left after dropping the echo of our own rpc can
-		// already be a complete message, if we don't file it now it would be merged with (and
-		// stored under the message id of) whatever we read next.
-		for d.Channel.PromptPattern.Match(b) { //nolint: nestif
-			if bytes.Contains(b, []byte("</rpc>")) {
-				// we read past the input, yay this is good, but we don't care that much, we just
-				// need to reset the buffer... *but* because there is a small read delay in channel
-				// we can sometimes already have read past the prompt/end of the original rpc. This
-				// isn't an issue in "normal" SSH operations where we don't send return until we
-				// read the input off the session, but obviously can break things here, so we'll
-				// use regex to split on the delim and then get only the bits after the delim and
-				// update b to be just that part.
-				var ss []string
+		// file one complete message at a time, never the buffer as a whole: what follows the first
+		// delimiter (the echo of the next rpc, the next reply) is not part of this message, and
+		// what is left can already be a complete message itself -- if we don't file it now it would
+		// be merged with (and stored under the message id of) whatever we read next.
+		for {
+			loc := d.Channel.PromptPattern.FindIndex(b)
+			if loc == nil {
+				break
+			}
 
-				switch d.SelectedVersion {
-				case V1Dot0:
-					ss = patterns.v1Dot0Delim.Split(string(b), endRPCSplitLen)
-				case V1Dot1:
-					ss = patterns.v1Dot1Delim.Split(string(b), endRPCSplitLen)
-				}
+			msg := b[:loc[1]:loc[1]]
+			b = b[loc[1]:]
 
-				b = []byte(ss[1])
-			} else if d.Channel.PromptPattern.Match(b) {
-				var messageID int
+			if bytes.Contains(msg, []byte("</rpc>")) {
+				// we read past the input (the transport echoes what we write), yay this is good,
+				// but we don't care that much, there is nothing to store.
+				continue
+			}
 
-				var subID int
+			var messageID int
 
-				messageID = getID(patterns.messageID.FindSubmatch(b))
+			var subID int
 
-				if bytes.Contains(b, []byte("</subscription-id>")) {
-					subID = getID(patterns.subscriptionID.FindSubmatch(b))
-				}
+			messageID = getID(patterns.messageID.FindSubmatch(msg))
 
-				if messageID != 0 {
-					d.Logger.Debugf(
-						"Received message response for message ID '%d', storing", messageID,
-					)
+			if bytes.Contains(msg, []byte("</subscription-id>")) {
+				subID = getID(patterns.subscriptionID.FindSubmatch(msg))
+			}
 
-					d.storeMessage(messageID, b)
-				}
+			if messageID != 0 {
+				d.Logger.Debugf(
+					"Received message response for message ID '%d', storing", messageID,
+				)
 
-				if subID != 0 {
-					d.Logger.Debugf(
-						"Received message response for subscription ID '%d', storing", subID,
-					)
+				d.storeMessage(messageID, msg)
+			}
 
-					d.storeSubscriptionMessage(subID, b)
-				}
+			if subID != 0 {
+				d.Logger.Debugf(
+					"Received message response for subscription ID '%d', storing", subID,
+				)
 
-				b = nil
+				d.storeSubscriptionMessage(subID, msg)
 			}
 		}
 
